@@ -61,7 +61,7 @@ auto imag(A&& array)
 template<class ComplexArr, class ComplexElem = typename std::decay_t<ComplexArr>::element, typename RealElem = typename ComplexElem::value_type,
 	class = std::enable_if_t<blas::numeric::is_complex_of<ComplexElem, RealElem>::value>>  // NOLINT(modernize-use-constraints) TODO(correaa) for C++20
 auto real_doubled(ComplexArr&& array) {  // produces a real view of complex array with the last dimension duplicated and with interleaved real imaginary parts
-	return std::forward<ComplexArr>(array).template reinterpret_array_cast<RealElem>(2).rotated().flatted().unrotated();
+	return std::forward<ComplexArr>(array).template reinterpret_array_cast<RealElem>(2).unrotated().unrotated().flatted().rotated();  // bring (last extent, 2) to the front, merge them, send the merged dimension back to the end
 }
 
 template<class Ref, class Involution> class involuted;
